@@ -17,8 +17,16 @@ Rev(alg) == CASE alg = "rc4_40"     -> 2
               [] alg = "aes_128"    -> 4
               [] alg = "aes_256"    -> 5
               [] alg = "aes_256_r6" -> 6
+              [] alg = "rc4_40_v2"  -> 2   \* /V 2 /R 2: an rc4_40 document with /V rewritten (same keys)
+              [] alg = "rc4_40_r3"  -> 3   \* /V 1 /R 3, 40-bit key: encrypted by the C26 harness itself (ISO 32000-1 algorithms 2, 3, 5)
               [] alg = "rc4_128_r3" -> 3   \* not offered by pdfcpu's encrypt command; C26 obtains such documents by
                                            \* rewriting the encryption dictionary of an rc4_128 document (same keys)
+
+(* The /V (algorithm) entry of the encryption dictionary; permissions depend on /R only. *)
+AlgV(alg) == CASE alg \in {"rc4_40", "rc4_40_r3"} -> 1
+               [] alg \in {"rc4_40_v2", "rc4_128_r3"} -> 2
+               [] alg \in {"rc4_128", "aes_128"} -> 4
+               [] OTHER -> 5
 
 (* Revisions 2-4 derive the owner key from the owner password or, when that is    *)
 (* empty, from the user password (ISO 32000-1 algorithm 3 step a).                *)
